@@ -718,7 +718,7 @@ private:
         }
         if (command == "STOP") {
             metrics_.command_stop_requests_total.fetch_add(1, std::memory_order_relaxed);
-            handle_stop(client, remote_identity);
+            handle_stop(client, request, remote_identity);
             return;
         }
         if (command == "LIST") {
@@ -807,7 +807,44 @@ private:
                   std::move(log_fields));
     }
 
-    void handle_stop(NativeSocket client, const std::string& remote_identity) {
+    // When a control token is configured, returns true only for requests carrying exactly that token; otherwise the
+    // authentication error has been sent (code prefix e.g. "ERR_STOP") and the request must not have any effect.
+    bool authorize_request(NativeSocket client,
+                           const ControlFields& fields,
+                           const std::string& code_prefix,
+                           std::string_view event,
+                           const std::string& remote_identity) {
+        std::optional<std::string> control_token;
+        {
+            std::scoped_lock lock(node_mutex_);
+            control_token = node_.config().control_token;
+        }
+        if (!control_token.has_value()) {
+            return true;
+        }
+        const auto token_it = fields.find("TOKEN");
+        const bool missing = token_it == fields.end();
+        if (!missing && constant_time_equal(*control_token, token_it->second)) {
+            return true;
+        }
+        auto error = make_error(code_prefix + "_UNAUTHENTICATED",
+                                missing ? "Control token required" : "Invalid control token",
+                                missing ? "Provide --control-token when invoking the CLI"
+                                        : "Verify the shared secret configured on the daemon");
+        log_event(StructuredLogger::Level::Warning,
+                  event,
+                  {{"remote", remote_identity},
+                   {"status", "error"},
+                   {"reason", missing ? "auth_missing" : "auth_invalid"}});
+        send_response(client, std::move(error), false);
+        return false;
+    }
+
+    void handle_stop(NativeSocket client, const ParsedRequest& request, const std::string& remote_identity) {
+        if (!authorize_request(client, request.fields, "ERR_STOP", "control.command.stop", remote_identity)) {
+            return;
+        }
+
         const bool should_stop_transport = !transport_stopped_.exchange(true, std::memory_order_acq_rel);
 
         bool invoked_shutdown = false;
@@ -1214,6 +1251,12 @@ private:
         };
 
         const auto& fields = request.fields;
+        // Both the streamed and the daemon-side form register the manifest and read the chunk: authenticate first.
+        if (!authorize_request(client, fields, "ERR_FETCH", "control.command.fetch", remote_identity)) {
+            metrics_.command_fetch_auth_failures_total.fetch_add(1, std::memory_order_relaxed);
+            return;
+        }
+
         const auto manifest_it = fields.find("MANIFEST");
         if (manifest_it == fields.end()) {
             auto error = make_error("ERR_FETCH_MANIFEST_REQUIRED",
